@@ -2,6 +2,7 @@ package props
 
 import (
 	"bytes"
+	"context"
 	"encoding/csv"
 	"encoding/json"
 	"fmt"
@@ -14,6 +15,7 @@ import (
 	"strconv"
 	"strings"
 	"sync"
+	"sync/atomic"
 	"time"
 
 	"github.com/cinar/indicator/v2/asset"
@@ -158,11 +160,49 @@ func refCsv[T any](doc []byte, hasHeader bool) []*T {
 	}
 }
 
-var discardLogger = slog.New(slog.NewTextHandler(io.Discard, nil))
+// eofGuard wraps a document: a reader that keeps polling its input long
+// after the end of input without closing its stream is livelocked (a logical
+// bound on progress, not a wall-clock one: a correct reader polls a few times
+// at most). The panic kills the child; the parent attributes it to the case.
+type eofGuard struct {
+	r     io.Reader
+	after int
+}
+
+func (g *eofGuard) Read(p []byte) (int, error) {
+	n, err := g.r.Read(p)
+	if err == io.EOF {
+		g.after++
+		if g.after > 10000 {
+			panic("verif: the reader polled its input 10000 times after the end of input without closing its stream (livelock)")
+		}
+	}
+	return n, err
+}
+
+// countingHandler discards log records but bounds their number per document:
+// a reader logs an error and stops, so thousands of error records for one
+// document mean it is looping on the same malformed input (a logical progress
+// bound; the panic kills the child and the parent attributes it to the case).
+type countingHandler struct{ n *atomic.Int64 }
+
+func (h countingHandler) Enabled(context.Context, slog.Level) bool { return true }
+func (h countingHandler) Handle(context.Context, slog.Record) error {
+	if h.n.Add(1) > 20000 {
+		panic("verif: the reader logged 20000 errors for one document without closing its stream (livelock)")
+	}
+	return nil
+}
+func (h countingHandler) WithAttrs([]slog.Attr) slog.Handler { return h }
+func (h countingHandler) WithGroup(string) slog.Handler      { return h }
+
+var logCount atomic.Int64
+var discardLogger = slog.New(countingHandler{&logCount})
 
 // csvCase feeds one document to the reader and applies the oracles.
 func csvCase[T any](cc *run.Case, census *mon.Census, typ string, doc []byte, hasHeader bool, viaFile string) bool {
 	cc.Desc(map[string]any{"reader": "csv", "type": typ, "hasHeader": hasHeader, "doc": string(doc), "via_file": viaFile != ""})
+	logCount.Store(0)
 	census.Begin()
 	c, err := helper.NewCsv[T](hasHeader)
 	if err != nil {
@@ -182,7 +222,7 @@ func csvCase[T any](cc *run.Case, census *mon.Census, typ string, doc []byte, ha
 			return false
 		}
 	} else {
-		rows = c.ReadFromReader(bytes.NewReader(doc))
+		rows = c.ReadFromReader(&eofGuard{r: bytes.NewReader(doc)})
 	}
 	got := helper.ChanToSlice(rows) // blocks for ever if the stream is never closed: runtime deadlock report
 	cc.Count("csv_documents", 1)
@@ -345,8 +385,9 @@ func refJSON[T any](doc []byte) []T {
 
 func jsonCase[T any](cc *run.Case, census *mon.Census, typ string, doc []byte, eq func(a, b T) bool) bool {
 	cc.Desc(map[string]any{"reader": "json", "type": typ, "doc": string(doc)})
+	logCount.Store(0)
 	census.Begin()
-	got := helper.ChanToSlice(helper.JSONToChanWithLogger[T](bytes.NewReader(doc), discardLogger))
+	got := helper.ChanToSlice(helper.JSONToChanWithLogger[T](&eofGuard{r: bytes.NewReader(doc)}, discardLogger))
 	cc.Count("json_documents", 1)
 	want := refJSON[T](doc)
 	detail := map[string]any{"type": typ, "doc": string(doc), "got": fmt.Sprint(got), "want": fmt.Sprint(want)}
@@ -405,7 +446,7 @@ func (t *fakeTransport) RoundTrip(req *http.Request) (*http.Response, error) {
 	return &http.Response{
 		StatusCode: t.status, Status: fmt.Sprintf("%d %s", t.status, http.StatusText(t.status)),
 		Proto: "HTTP/1.1", ProtoMajor: 1, ProtoMinor: 1, Header: http.Header{"Content-Type": {"application/json"}},
-		Body: recBody{Reader: bytes.NewReader(t.body), mu: &t.mu, closed: &t.closed}, ContentLength: int64(len(t.body)), Request: req,
+		Body: recBody{Reader: &eofGuard{r: bytes.NewReader(t.body)}, mu: &t.mu, closed: &t.closed}, ContentLength: int64(len(t.body)), Request: req,
 	}, nil
 }
 
@@ -427,6 +468,7 @@ func refTiingo(doc []byte) []asset.Snapshot {
 
 func tiingoCase(cc *run.Case, census *mon.Census, status int, body []byte) bool {
 	cc.Desc(map[string]any{"reader": "tiingo", "status": status, "body": string(body)})
+	logCount.Store(0)
 	census.Begin()
 	ft := &fakeTransport{status: status, body: body}
 	old := http.DefaultTransport
